@@ -50,6 +50,21 @@ def eval_include(sc):
     return None
 
 
+def eval_include_cli(sc):
+    """The same configuration through the command line, typed from inside the project directory with relative paths, and with the
+    main file's own directory also named by -I (it is searched anyway, so naming it changes nothing)."""
+    case = dict(include_case(sc), relative_paths=True)
+    case['include_dirs'] = list(case['include_dirs']) + ['d0']
+    obs = runner.run_cli(case)
+    exp_ok = sc['st'] == 'ok'
+    if (obs['status'] == 'ok') != exp_ok:
+        return {'mismatch': f'command line with relative paths and -I d0: specification {sc["st"]}, implementation {obs["status"]} ({(obs.get("msg") or "")[-140:]})', 'case': case,
+                'obs': obs['status']}
+    if exp_ok and obs['image'] != bytes(MARK[n] for n in sc['out']):
+        return {'mismatch': f'command line with relative paths and -I d0: image {obs["image"].hex()}', 'case': case, 'obs': obs['image'].hex()}
+    return None
+
+
 def include_part(chk):
     if chk.tier == 'quick':
         configs = [(['A', 'B'], ['d1'], None)]
@@ -68,6 +83,14 @@ def include_part(chk):
             if r is not None:
                 chk.violation(f'include graph {sc["incs"]} copies {sc["place"]} -I {sc["passed"]} dup={sc["dup"]}: {r["mismatch"]}',
                               r['case'], {'status': sc['st'], 'order': sc['out']}, r['obs'])
+        # a sample through the command line, typed from inside the project directory
+        import random
+        pick = random.Random(chk.seed + 17).sample(scs, min(len(scs), 160 if chk.tier == 'quick' else 1500))
+        for sc, r in zip(pick, runner.pmap(eval_include_cli, pick)):
+            chk.traces += 1
+            if r is not None:
+                chk.violation(f'include graph {sc["incs"]} copies {sc["place"]} -I {sc["passed"]} dup={sc["dup"]}: {r["mismatch"]}',
+                              r['case'], {'status': sc['st'], 'order': sc['out']}, r['obs'], {'kind': 'include-cli'})
         for sc in [s for s in scs if s['st'] == 'twice'][:1] + [s for s in scs if s['st'] == 'ok' and len(s['out']) > 2][:1]:
             chk.sample({'instance': 'include-graph', 'includes': sc['incs'], 'copies': sc['place'], 'passed': sc['passed'],
                         'dup_spelling': sc['dup'], 'expected': sc['st'], 'order': sc['out']})
